@@ -421,4 +421,175 @@ theorem unrepaired_chain_joins_records :
   rw [specAll_cons_of (r := ['a', '2', 'b', '1']) (rest := []) (by decide) (by decide)]
   rw [specAll_nil_of (rest := []) (by decide)]
 
+/-! ## RS / FS, CONVFMT and IGNORECASE assigned in any order: the separator in force is the one fixed at the last assignment
+
+Model: `set_separator` (run.c, with `patches/c04-rs-fs-text-fixed-at-assignment.diff`), `resolve_rs` / `resolve_brs`
+and the dispatch of `hawk_rtx_readio` / `hawk_rtx_readiobytes`, `split_record`'s `how`.  `ok` (which texts
+`hawk_rtx_buildrex` accepts) and the conversion of values to texts (`Val.text`, `Val.btext`: any functions of CONVFMT)
+are arbitrary. -/
+
+/-- **The way of reading is the one fixed at the last RS assignment** (and the way of splitting the one fixed at the
+last FS assignment): after every history of assignments to RS, FS, CONVFMT and IGNORECASE - values of any type, any
+CONVFMT texts, failing assignments included - the character reader, the byte reader and `split_record` go by the
+text the value had under the CONVFMT *of the assignment*, whatever CONVFMT is now; and when that text calls for a
+regular expression it is the one compiled from that very text. -/
+theorem mode_fixed_at_last_assignment (ok : List Char → Bool) (ops : List SepOp) :
+    selRead (env0.run ok ops) =
+      specSel (sepText (last0.run ok ops).rs) (env0.run ok ops).ignorecase (sepText (last0.run ok ops).rs) ∧
+    selReadBytes (env0.run ok ops) =
+      specSel (sepText (last0.run ok ops).rs) (env0.run ok ops).ignorecase (sepBText (last0.run ok ops).rs) ∧
+    howSplit (env0.run ok ops) = specHow (env0.run ok ops).ignorecase (sepText (last0.run ok ops).fs) := by
+  obtain ⟨_, h2, h3⟩ := tracks_run ok ops env0 last0 tracks_init
+  generalize env0.run ok ops = e at *
+  generalize last0.run ok ops = l at *
+  refine ⟨?_, ?_, ?_⟩
+  · unfold selRead
+    rw [h2]
+    have : (sepOf false l.rs).text = sepText l.rs := by unfold sepOf sepText; split <;> rfl
+    rw [this]
+    apply selOfText_sepOf
+    intro x y r hx
+    unfold sepText at hx
+    split at hx
+    · cases hx
+    · rename_i hn
+      simp only [Option.some.injEq] at hx
+      exact ⟨by simpa using hn, by simp [isRexText, hx]⟩
+  · unfold selReadBytes
+    rw [h2]
+    have : (sepOf false l.rs).btext = sepBText l.rs := by unfold sepOf sepBText; split <;> rfl
+    rw [this]
+    apply selOfText_sepOf
+    intro x y r hx
+    unfold sepBText at hx
+    split at hx
+    · cases hx
+    · rename_i hn
+      simp only [Option.some.injEq] at hx
+      exact ⟨by simpa using hn, by simp [isRexText, hx]⟩
+  · unfold howSplit
+    rw [h3]
+    by_cases hn : l.fs.1.isNil = true
+    · simp [sepOf, sepText, hn, howOfText, specHow]
+    · have e1 : (sepOf true l.fs).text = some (l.fs.1.text l.fs.2) := by simp [sepOf, hn]
+      have e2 : (sepOf true l.fs).rex =
+          if isRexText true (l.fs.1.text l.fs.2) (l.fs.1.btext l.fs.2) then some (l.fs.1.text l.fs.2) else none := by
+        simp [sepOf, hn]
+      have e3 : sepText l.fs = some (l.fs.1.text l.fs.2) := by simp [sepText, hn]
+      rw [e1, e2, e3]
+      generalize l.fs.1.text l.fs.2 = t
+      generalize l.fs.1.btext l.fs.2 = b
+      simp only [howOfText, specHow]
+      by_cases h5 : t.length = 5 ∧ t.head? = some '?'
+      · rw [if_pos h5, if_pos h5]
+      · rw [if_neg h5, if_neg h5]
+        by_cases h1 : t.length ≤ 1
+        · rw [if_pos h1, if_pos h1]
+        · rw [if_neg h1, if_neg h1]
+          have hr : isRexText true t b = true := by
+            unfold isRexText
+            have hgt : t.length > 1 := by omega
+            by_cases h5a : t.length = 5
+            · have : t.head? ≠ some '?' := fun h => h5 ⟨h5a, h⟩
+              simp [h5a, this]
+            · simp [hgt, h5a]
+          simp [hr]
+
+/-- **The regex mode is only entered with a compiled regular expression**: no history makes a reader or the splitter
+call the matcher with `rtx->gbl.rs[..]` / `fs[..]` null, and the expression used is the one compiled from the text
+that selected the mode. -/
+theorem regex_mode_only_with_compiled_regex (ok : List Char → Bool) (ops : List SepOp) :
+    selRead (env0.run ok ops) ≠ .crash ∧ selReadBytes (env0.run ok ops) ≠ .crash ∧ howSplit (env0.run ok ops) ≠ .crash ∧
+    (∀ src ic, selRead (env0.run ok ops) = .regex src ic →
+      (env0.run ok ops).rs.rex = some src ∧ (env0.run ok ops).rs.text = some src) := by
+  obtain ⟨h1, h2, h3⟩ := mode_fixed_at_last_assignment ok ops
+  have nc : ∀ {α : Type} (s : Option (List Char)) (ic : Bool) (t : Option (List α)), specSel s ic t ≠ .crash := by
+    intro α s ic t
+    match t with
+    | none => simp [specSel]
+    | some [] => simp [specSel]
+    | some [_] => simp [specSel]
+    | some (_ :: _ :: _) => simp [specSel]
+  refine ⟨by rw [h1]; exact nc _ _ _, by rw [h2]; exact nc _ _ _, ?_, ?_⟩
+  · rw [h3]
+    unfold specHow
+    split
+    · simp
+    · split
+      · simp
+      · split <;> simp
+  · intro src ic hsel
+    obtain ⟨_, t2, _⟩ := tracks_run ok ops env0 last0 tracks_init
+    have hr := selOfText_regex _ _ _ _ _ hsel
+    refine ⟨hr, ?_⟩
+    rw [t2] at hr ⊢
+    exact sepOf_rex _ _ _ hr
+
+/-- **Records after any history do not depend on the chunking** (newline, paragraph and single-character ways of
+reading): whatever was assigned to RS, FS, CONVFMT and IGNORECASE in whatever order, if the text fixed at the last RS
+assignment has at most one character (or RS is nil) the reader has a mode, it is not the regex mode, and two chunkings
+of the same characters give the same records. -/
+theorem records_after_any_history_chunk_independent (ok : List Char → Bool) (mk : List Char → Bool → Matcher) (crlf : Bool)
+    (ops : List SepOp) (hlen : ∀ t, sepText (last0.run ok ops).rs = some t → t.length ≤ 1) :
+    ∃ mode, (selRead (env0.run ok ops)).toMode mk crlf = some mode ∧ mode.isAuto = true ∧
+      ∀ cs cs' : Stream, NoEmpty cs → NoEmpty cs' → cs.flatten = cs'.flatten → readAll mode {} cs = readAll mode {} cs' := by
+  obtain ⟨h1, _, _⟩ := mode_fixed_at_last_assignment ok ops
+  rw [h1]
+  generalize sepText (last0.run ok ops).rs = tx at *
+  match tx, hlen with
+  | none, _ => exact ⟨.dflt, rfl, rfl, fun cs cs' a b c => records_same_for_all_chunkings _ rfl cs cs' a b c⟩
+  | some [], _ => exact ⟨.para crlf, rfl, rfl, fun cs cs' a b c => records_same_for_all_chunkings _ rfl cs cs' a b c⟩
+  | some [ch], _ => exact ⟨.single ch, rfl, rfl, fun cs cs' a b c => records_same_for_all_chunkings _ rfl cs cs' a b c⟩
+  | some (x :: y :: r), hlen => have := hlen _ rfl; simp at this
+
+/-- the same with a regex RS whose matchers are `Stable` (missing: unstable matchers, see `unstable_counterexample`):
+after every history the reader has a mode - it never meets a null regular expression - and the records do not depend
+on the chunking -/
+theorem records_after_any_history_regex_partial (ok : List Char → Bool) (mk : List Char → Bool → Matcher) (crlf : Bool)
+    (hS : ∀ src ic, Stable (mk src ic)) (ops : List SepOp) :
+    ∃ mode, (selRead (env0.run ok ops)).toMode mk crlf = some mode ∧
+      ∀ cs cs' : Stream, NoEmpty cs → NoEmpty cs' → cs.flatten = cs'.flatten → readAll mode {} cs = readAll mode {} cs' := by
+  obtain ⟨h1, _, _⟩ := mode_fixed_at_last_assignment ok ops
+  rw [h1]
+  generalize sepText (last0.run ok ops).rs = tx
+  match tx with
+  | none => exact ⟨.dflt, rfl, fun cs cs' a b c => records_same_for_all_chunkings _ rfl cs cs' a b c⟩
+  | some [] => exact ⟨.para crlf, rfl, fun cs cs' a b c => records_same_for_all_chunkings _ rfl cs cs' a b c⟩
+  | some [ch] => exact ⟨.single ch, rfl, fun cs cs' a b c => records_same_for_all_chunkings _ rfl cs cs' a b c⟩
+  | some (x :: y :: r) =>
+    exact ⟨.regex (mk (x :: y :: r) _), rfl, fun cs cs' a b c => records_same_for_all_chunkings_regex_partial _ (hS _ _) cs cs' a b c⟩
+
+/-- the float 2.5 as far as its text goes: `2` under CONVFMT `%d`, `2.5` otherwise -/
+def flt25 : Val :=
+  ⟨false, fun f => if f = ['%', 'd'] then ['2'] else ['2', '.', '5'], fun f => if f = ['%', 'd'] then [50] else [50, 46, 53]⟩
+
+/-- `BEGIN { CONVFMT = "%d"; RS = 2.5; CONVFMT = "%.6g"; getline x < "FILE" }` -/
+def crashHistory : List SepOp := [.convfmt ['%', 'd'], .setRS flt25, .convfmt defaultFmt]
+
+/-- **The unrepaired readers entered the regex mode without a regular expression** (a null pointer dereference in
+`match_long_rs`, reproduced by the check on the unchanged tree): the assignment saw the one-character text `2` and
+compiled nothing, the read saw `2.5`.  The repaired reader splits at `2`.  The FS twin: `split_record` met a null
+`fs`, or split by the text of the day with the expression compiled at the assignment. -/
+theorem unrepaired_reader_enters_regex_mode_without_regex :
+    selReadUnrepaired (env0.run (fun _ => true) crashHistory) = .crash ∧
+    selReadBytesUnrepaired (env0.run (fun _ => true) crashHistory) = .crash ∧
+    selRead (env0.run (fun _ => true) crashHistory) = .single '2' ∧
+    howSplitUnrepaired (env0.run (fun _ => true) [.convfmt ['%', 'd'], .setFS flt25, .convfmt defaultFmt]) = .crash ∧
+    howSplit (env0.run (fun _ => true) [.convfmt ['%', 'd'], .setFS flt25, .convfmt defaultFmt]) = .chars ['2'] ∧
+    howSplitUnrepaired (env0.run (fun _ => true) [.setFS flt25, .convfmt ['%', 'd']]) = .chars ['2'] ∧
+    howSplit (env0.run (fun _ => true) [.setFS flt25, .convfmt ['%', 'd']]) = .rex ['2', '.', '5'] false := by
+  refine ⟨by decide, by decide, by decide, by decide, by decide, by decide, by decide⟩
+
+/-- non-vacuity: histories after which the reader is in each of its modes; a rejected expression changes nothing; a
+single character of two bytes is a regular expression for the byte reader -/
+example :
+    selRead (env0.run (fun _ => true) []) = .dflt ∧
+    selRead (env0.run (fun _ => true) [.setRS (strVal []), .convfmt ['%', 'd']]) = .para ∧
+    selRead (env0.run (fun _ => true) [.setRS (strVal ['a', 'b']), .ignorecase true, .sameRS]) = .regex ['a', 'b'] true ∧
+    selRead (env0.run (fun t => t != ['a', '(']) [.setRS (strVal ['x']), .setRS (strVal ['a', '('])]) = .single 'x' ∧
+    selRead (env0.run (fun _ => true) [.setRS (strVal ['x']), .setRS nilVal]) = .dflt ∧
+    selReadBytes (env0.run (fun _ => true) [.setRS ⟨false, fun _ => ['é'], fun _ => [195, 169]⟩]) = .regex ['é'] false ∧
+    selRead (env0.run (fun _ => true) [.setRS ⟨false, fun _ => ['é'], fun _ => [195, 169]⟩]) = .single 'é' := by
+  refine ⟨by decide, by decide, by decide, by decide, by decide, by decide, by decide⟩
+
 end Hawk.ReadIo
